@@ -19,6 +19,10 @@ func SafeCmdExecution(executable string, args []string, timeout time.Duration) (
 	defer cancel()
 
 	cmd := exec.CommandContext(ctx, executable, args...)
+	// bound the wait for the output pipes as well: a child process that
+	// outlives the command and keeps stdout open would otherwise block Output()
+	// far beyond the timeout
+	cmd.WaitDelay = 500 * time.Millisecond
 	out, err := cmd.Output()
 
 	if ctx.Err() == context.DeadlineExceeded {
